@@ -236,15 +236,54 @@ def fingerprint(ps):
 # ---------------------------------------------------------------------------
 # construction
 # ---------------------------------------------------------------------------
+# Mutable objects this harness (as the *creator* of a layer) handed to the
+# constructor of the layer built last: [(label, object)]. The creator keeps
+# them and scribbles on them at the end of the case (see check_creator_aliasing
+# in checks/c20.py): an experimenter holds its problem statement by value only
+# if that leaves it untouched.
+OWNED = []
+
+
+def _own(label, obj):
+  OWNED.append((label, obj))
+  return obj
+
+
 def _bbob_exp(a):
-  if a.get('lo') is None:
+  if a.get('lo') is None and not a.get('direct'):
     return experimenter_factory.BBOBExperimenterFactory(
         name=a['fn'], dim=a['dim'], rotation_seed=a['seed'])()
-  st = getattr(vz.ScaleType, a['scale']) if a.get('scale') else None
+  kw = {}
+  if a.get('lo') is not None:
+    st = getattr(vz.ScaleType, a['scale']) if a.get('scale') else None
+    kw = {'min_value': a['lo'], 'max_value': a['hi'], 'scale_type': st}
   return numpy_experimenter.NumpyExperimenter(
       functools.partial(getattr(bbob, a['fn']), seed=a['seed']),
-      bbob.DefaultBBOBProblemStatement(
-          a['dim'], min_value=a['lo'], max_value=a['hi'], scale_type=st))
+      _own('problem_statement', bbob.DefaultBBOBProblemStatement(a['dim'], **kw)))
+
+
+def optproblem(kind, a):
+  import optproblems.dtlz
+  import optproblems.wfg
+  import optproblems.zdt
+  if kind == 'dtlz':
+    return getattr(optproblems.dtlz, a['name'])(a['nobj'], a['dim'])
+  if kind == 'zdt':
+    return getattr(optproblems.zdt, a['name'])(a['dim'])
+  return getattr(optproblems.wfg, a['name'])(a['nobj'], a['dim'], a['nobj'] - 1)
+
+
+def _mo_direct(kind, a):
+  """The documented composition of the DTLZ/ZDT/WFG factories, built by hand from a
+  statement this harness owns (f<i> MINIMIZE over x<d> in [0, 1])."""
+  ps = vz.ProblemStatement()
+  for n in range(a.get('nobj') or 2):
+    ps.metric_information.append(
+        vz.MetricInformation(name=f'f{n}', goal=vz.ObjectiveMetricGoal.MINIMIZE))
+  for d in range(a['dim']):
+    ps.search_space.root.add_float_param(f'x{d}', 0.0, 1.0)
+  return numpy_experimenter.MultiObjectiveNumpyExperimenter(
+      optproblem(kind, a).objective_function, _own('problem_statement', ps))
 
 
 def make_base(kind, a):
@@ -260,6 +299,8 @@ def make_base(kind, a):
         a['best'], num_float_param=a['nf'], num_discrete_param=a['nd'],
         num_int_param=a['ni'], output_relative_error=a['rel'])
   if kind in ('dtlz', 'zdt', 'wfg'):
+    if a.get('direct'):
+      return _mo_direct(kind, a)
     from vizier._src.benchmarks.experimenters.synthetic import multiobjective_optproblems as mo
     if kind == 'dtlz':
       return mo.DTLZExperimenterFactory(name=a['name'], dim=a['dim'], num_objectives=a['nobj'])()
@@ -310,7 +351,7 @@ def make_wrapper(kind, a, inners):
       return sparse_experimenter.SparseExperimenter.create(
           inner, float_count=a['nf'], int_count=a['ni'], discrete_count=a['nd'],
           categorical_count=a['nc'], **kw)
-    ss = vz.SearchSpace()
+    ss = _own('search_space', vz.SearchSpace())
     for p in a['space']:
       _add_param(ss, p)
     return sparse_experimenter.SparseExperimenter(inner, ss, prefix=a['prefix'])
